@@ -24,7 +24,7 @@ THEOREM_CFG = ("SPECIFICATION Spec\nCONSTANTS\n  WV = {wv}\n  EV <- {ev}\n  MaxN
 THEOREMS = {
     "quick": [("{1, 2, 3}", "EV013", 4, "FALSE"), ("{1, 2}", "EV01", 6, "FALSE"),
               ("{1}", "EV01", 11, "FALSE"), ("{1, 3}", "EVneg", 5, "FALSE")],
-    "thorough": [("{1, 2, 3}", "EV013", 5, "TRUE"), ("{1, 2}", "EV01", 8, "TRUE"), ("{1}", "EV01", 13, "TRUE"),
+    "thorough": [("{1, 2, 3}", "EV013", 5, "TRUE"), ("{1, 2}", "EV01", 8, "FALSE"), ("{1}", "EV01", 13, "TRUE"),
                  ("{1, 3}", "EVneg", 6, "TRUE"), ("{1, 2}", "EVwide", 5, "TRUE"), ("{2, 3}", "EV01", 7, "FALSE")],
 }
 
@@ -104,11 +104,11 @@ def blocking_plan(chk):
     q = chk.tier == "quick"
     kinds = ["iid", "ties", "ar1", "const", "nearconst", "equalw"]
     plan = []
-    for n in list(range(4, 26)) + [int(x) for x in rng.integers(26, 61, 14 if q else 120)]:
+    for n in list(range(4, 26)) + [int(x) for x in rng.integers(26, 61, 14 if q else 80)]:
         for kind in (rng.choice(kinds, 2, replace=False) if q else kinds):
             plan.append((n, {"size": "short", "kind": str(kind), "neqls": (1, n // 2, n - 4, n - 3, n - 1)}))
-    for n in [61, 101, 199, 200, 201, 401, 402, 999, 1001] + [int(x) for x in rng.integers(61, 2000, 10 if q else 150)]:
-        for kind in (rng.choice(kinds, 1) if q else ["iid", "ar1", "ties", "nearconst"]):
+    for n in [61, 101, 199, 200, 201, 401, 402, 999, 1001] + [int(x) for x in rng.integers(61, 2000, 10 if q else 60)]:
+        for kind in (rng.choice(kinds, 1) if q else ["iid", "ar1", "ties"]):
             plan.append((n, {"size": "medium", "kind": str(kind), "neqls": (n // 10, n // 2)}))
     longs = [2001, 10000] if q else [2000, 2001, 2002, 4999, 9999, 10000, 10000, 10000] + \
         [int(x) for x in rng.integers(2001, 10001, 16)]
@@ -221,18 +221,18 @@ def run(chk: Check):
     ms = [(1.0, [1, 1]), (2.5, [5, 2]), (10.0, [10, 1]), (None, [10, 1])]
     ovars = [{"tag": "plain"}, {"tag": "x*2^-7-75", "pow": 7, "shift": -75}, {"tag": "int-dtype", "dtype": "int"}]
     osizes = list(range(4, 20)) + [int(x) for x in orng.integers(20, 400, 6 if q else 60)] + \
-        ([2000, 10000] if q else [1999, 2000, 5000, 9999, 10000, 10000])
+        ([2000, 10000] if q else [1999, 5000, 10000])
     for n in osizes:
         for style in (["heavy", "spiky"] if (q and n > 12) else ["heavy", "spiky", "ties", "wide"]):
             data = outlier_data(orng, n, style)
             for col0 in range(3):
                 for m, mq in (ms if n <= 400 else ms[1:3]):
                     rid += 1
-                    obs = st.observe_outliers(data, col0, m, ovars)
+                    obs = st.observe_outliers(data, col0, m, ovars if n <= 400 else ovars[:2])
                     recs.append({"id": rid, "kind": "outliers", "data": data.tolist(), "col": col0 + 1, "m": mq,
                                  "obs": [o for o, _ in obs], "cost": 5 + n})
                     meta[rid] = {"fn": "outliers", "data": data, "col0": col0, "m": m, "raw": [r for _, r in obs],
-                                 "variants": ovars, "gen": style}
+                                 "variants": ovars if n <= 400 else ovars[:2], "gen": style}
     # exhaustive small columns (every column over {0..3}, lengths 4..6)
     cols = [c for n in (4, 5, 6) for c in itertools.product((0, 1, 2, 3), repeat=n)]
     if not q:
@@ -289,9 +289,8 @@ def run(chk: Check):
                              "variants": jvars[:1], "gen": "exhaustive"}
 
     verdicts = {}
-    batch = 12000
-    for k in range(0, len(recs), batch):
-        verdicts.update(st.judge(chk, recs[k:k + batch], f"bind{k // batch}", nchunks=64))
+    for k, part in enumerate(st.batches(recs)):
+        verdicts.update(st.judge(chk, part, f"bind{k}", nchunks=64))
     assess(chk, recs, meta, verdicts)
 
 
